@@ -20,6 +20,8 @@ def run(ctx, rep):
     runloop.r12j(ctx, rep)
     runloop.r07h(ctx, rep, rule="R12k")
     runloop.r12l(ctx, rep)
+    from . import prelude
+    prelude.r12n(ctx, rep)
     runloop.r07i(ctx, rep, rule="R12m")
     rep.note("observation: jump targets are encoded as VCell::Ptr and handed to the marker like references — conservative "
              "retention of at most bc.len() low-numbered cells per lambda (bounded); that the marker leaves free cells alone is R03j")
